@@ -117,6 +117,12 @@ func replaceLemma(idx int, p string) {
 			}
 			exp := refEncodeMsg(0, 4, r.Dst, r.Nonce, r.Sender, r.Recipient, m.Caller, body)
 			verifrt.Assert(p+"/replace/message-bytes", bytes.Equal(sent.Message, exp))
+			// the sender of a replacement is the submitter, or the module for a deposit replacement
+			if isDeposit {
+				verifrt.Assert(p+"/replace/sender-is-module-for-deposits", bytes.Equal(out.Sender, modulePadded()))
+			} else {
+				verifrt.Assert(p+"/replace/sender-is-submitter", bytes.Equal(out.Sender, fromPadded))
+			}
 			if isDeposit {
 				dep, isDep := evs[1].(*types.DepositForBurn)
 				verifrt.Assert(p+"/replace/second-event-is-deposit-for-burn", isDep)
